@@ -5,8 +5,12 @@ generated or hand-written model of the code does not.
 -/
 import Switcher.Spec.Frame
 import Switcher.Spec.Devices
+import Switcher.Spec.Days
 import Switcher.Model.Wire
 open Spec Wire
+
+def csvNats (s : String) : List Nat := if s == "-" then [] else (s.splitOn ",").filterMap (·.toNat?)
+def showNats (l : List Nat) : String := if l.isEmpty then "-" else ",".intercalate (l.map toString)
 
 def judge : List String → String
   | ["sig", hx] =>                      -- the protocol's four signature bytes of a byte string
@@ -32,6 +36,17 @@ def judge : List String → String
   | ["c19codes", codes] =>                        -- model codes: two bytes each, pairwise distinct
     let cs := codes.splitOn ","
     if cs.all isHex4 && cs.eraseDups.length == cs.length then "1" else "0"
+  | ["c12enc", form, days, observed] =>          -- C12 encoding: mask of the set, two digits; reject empty / duplicates
+    let l := csvNats days
+    let mustRaise := l.isEmpty || (form != "single" && form != "set" && !decide l.Nodup)
+    if mustRaise then (if observed == "raise" then "1" else "0")
+    else if observed == String.ofList (hex2 (maskOf l)) then "1" else "0"
+  | ["c12dec", n, observed] =>                    -- C12 decoding: exactly the days whose bit is set; reject outside 2..254
+    match int? n with
+    | some v =>
+      if 2 ≤ v ∧ v ≤ 254 then (if observed == showNats (daysOfMask v.toNat) then "1" else "0")
+      else (if observed == "raise" then "1" else "0")
+    | none => "bad-arg"
   | _ => "bad-op"
 
 def main : IO Unit := do Wire.loop (← IO.getStdin) (← IO.getStdout) judge
